@@ -159,3 +159,43 @@ Definition async_evolve2d (sp : rule_spec) (o : option (list (nat * nat))) (rand
   if (length (a_order a0) =? 0) && (2 <=? T) && (1 <=? grid_rows g0 * grid_cols g0) then Raise IndexError else
   bind (evolve2d_plain (async_rule2 (logged2 (spec_rule2 sp)) (script_sh (0, 0) ps)) store_id r ty a0 hist T)
        (fun xr => Ok (snd xr, snd (a_inner (fst xr)))).
+
+(* ---- one rule object used for two consecutive evolve calls (the second call starts with curr <> 0, the
+   shuffle counter and the wrapped rule's state where the first call left them; step numbers restart at 1) *)
+Definition async_obj1 (o : option (list nat)) (rand : bool) (ps : list (list nat)) (N : nat)
+  : astate nat (nat * list call1) :=
+  match o with
+  | Some order => async_init order rand (0, [])
+  | None => async_init_cells (script_sh 0 ps) (init_order1 N) rand (0, [])
+  end.
+Definition async_evolve1d_obj (sp : rule_spec) (ps : list (list nat)) (r : nat)
+           (a0 : astate nat (nat * list call1)) (hist : list (list Z)) (T : nat)
+  : res (astate nat (nat * list call1) * list (list Z)) :=
+  if (length (a_order a0) =? 0) && (2 <=? T) && (1 <=? length (last hist [])) then Raise IndexError else
+  evolve_plain (async_rule1 (logged1 (spec_rule1 sp)) (script_sh 0 ps)) store_id r a0 hist T.
+Definition async_evolve1d_twice (sp : rule_spec) (o : option (list nat)) (rand : bool) (ps : list (list nat))
+           (r : nat) (hist1 : list (list Z)) (T1 : nat) (hist2 : list (list Z)) (T2 : nat)
+  : res (list (list Z) * list (list Z) * list call1) :=
+  bind (async_evolve1d_obj sp ps r (async_obj1 o rand ps (length (last hist1 []))) hist1 T1) (fun x1 =>
+  bind (async_evolve1d_obj sp ps r (fst x1) hist2 T2) (fun x2 =>
+  Ok (snd x1, snd x2, snd (a_inner (fst x2))))).
+
+Definition async_obj2 (o : option (list (nat * nat))) (rand : bool) (ps : list (list nat)) (R C : nat)
+  : astate (nat * nat) (nat * list call2) :=
+  match o with
+  | Some order => async_init order rand (0, [])
+  | None => async_init_cells (script_sh (0, 0) ps) (init_order2 R C) rand (0, [])
+  end.
+Definition async_evolve2d_obj (sp : rule_spec) (ps : list (list nat)) (r : nat) (ty : nbhd_type)
+           (a0 : astate (nat * nat) (nat * list call2)) (hist : list grid) (T : nat)
+  : res (astate (nat * nat) (nat * list call2) * list grid) :=
+  let g0 := last hist [] in
+  if (length (a_order a0) =? 0) && (2 <=? T) && (1 <=? grid_rows g0 * grid_cols g0) then Raise IndexError else
+  evolve2d_plain (async_rule2 (logged2 (spec_rule2 sp)) (script_sh (0, 0) ps)) store_id r ty a0 hist T.
+Definition async_evolve2d_twice (sp : rule_spec) (o : option (list (nat * nat))) (rand : bool) (ps : list (list nat))
+           (r : nat) (ty : nbhd_type) (hist1 : list grid) (T1 : nat) (hist2 : list grid) (T2 : nat)
+  : res (list grid * list grid * list call2) :=
+  let g0 := last hist1 [] in
+  bind (async_evolve2d_obj sp ps r ty (async_obj2 o rand ps (grid_rows g0) (grid_cols g0)) hist1 T1) (fun x1 =>
+  bind (async_evolve2d_obj sp ps r ty (fst x1) hist2 T2) (fun x2 =>
+  Ok (snd x1, snd x2, snd (a_inner (fst x2))))).
